@@ -48,7 +48,9 @@ MANIFEST = {
                   "forward expansion proved by induction over the horizon; the leads of xi+ are the states of the model-consistent "
                   "continuation (via the dynamic identities, which are proved to exist for every token set and to be x{k}(t) = x{k+1}(t-1)); "
                   "a steady state of the system is a fixed point of the recursion and level = steady + deviation period by period; the "
-                  "deviation path satisfies the homogeneous system; measurement block; STABLE iff #unstable = #forward-looking, the three "
+                  "same along a GROWING steady-state path (three consecutive points of an affine path satisfying the system are one step of the "
+                  "recursion; C = -(A xi + B xi_lagged) makes that hold by construction); the deviation path satisfies the homogeneous "
+                  "system; measurement block; STABLE iff #unstable = #forward-looking, the three "
                   "eigenvalue classes partition, and the QZ ordering predicate agrees with the classifier (predicates regenerated from "
                   "fords/solutions.py); the recursion matrix has exactly the generalised eigenvalues of the pencil block ordered first. "
                   "Correspondence: random models as source text -> from_string/assign/steady/solve/simulate, all 15 solution matrices, "
@@ -142,6 +144,55 @@ def gen_spec(rng, max_states=8) -> dict:
             continue
         return spec
     raise RuntimeError("generator: no model within the size limit")
+
+
+def add_growth(rng, base, zbar) -> dict:
+    """A balanced-growth version of a stationary model that is linear in V: a stochastic trend  V_a = V_a{-1} + mu + e  is
+    appended and every equation is re-read in gaps  V_j - kappa_j V_a :
+        (V_i - k_i V_a) = sum c (V_j{sh} - k_j V_a{sh}) + const + shocks
+    which is again of the standard form (V_i = linear terms + const + shocks).  The steady state grows:
+    V_j(t) = zbar_j + kappa_j (a0 + mu t)  (gross rate exp(kappa_j mu) for log-variables).  The model is declared neither
+    linear nor flat, so that the constants of the first-order system come from the steady-state path."""
+    n = base["n"]
+    assert not any(e["nl"] for e in base["eqs"])
+    kappa = [(_r(rng, 0.3, 1.5) if rng.random() < 0.8 else 0.0) for _ in range(n)]
+    if not any(kappa):
+        kappa[rng.randrange(n)] = 1.0
+    mu = _r(rng, 0.01, 0.08, 3) * rng.choice([1, 1, -1])
+    a0 = _r(rng, -0.5, 0.8, 2)
+    eqs = []
+    for i, e in enumerate(base["eqs"]):
+        terms = {(j, sh): c for (j, sh, c) in e["terms"]}
+        ca = {0: kappa[i]}
+        for (j, sh, c) in e["terms"]:
+            ca[sh] = ca.get(sh, 0.0) - c * kappa[j]
+        for sh, c in ca.items():
+            if c != 0.0:
+                terms[(n, sh)] = c
+        eqs.append({"terms": [[j, sh, c] for (j, sh), c in sorted(terms.items())], "const": e["const"],
+                    "shocks": [list(q) for q in e["shocks"]], "nl": []})
+    eqs.append({"terms": [[n, -1, 1.0]], "const": mu, "shocks": [[base["nshocks"], 1.0]], "nl": []})
+    spec = dict(base)
+    spec.update({"n": n + 1, "logs": list(base["logs"]) + [rng.random() < 0.5], "eqs": eqs, "nshocks": base["nshocks"] + 1,
+                 "linear": False, "flat": False})
+    level = [float(zbar[j]) + kappa[j] * a0 for j in range(n)] + [a0]
+    change = [kappa[j] * mu for j in range(n)] + [mu]
+    spec["growth"] = {"trend": n, "mu": mu, "a0": a0, "kappa": kappa, "level": level, "change": change}
+    return spec
+
+
+def growth_steady_assignment(spec) -> dict:
+    """{name: (level, change)} at the reference date, changes as gross rates for log-variables"""
+    g = spec["growth"]
+    out = {}
+    for j in range(spec["n"]):
+        lv, ch = g["level"][j], g["change"][j]
+        out[vname(j)] = (math.exp(lv), math.exp(ch)) if spec["logs"][j] else (lv, ch)
+    for k, me in enumerate(spec["meas"]):
+        lv = me["const"] + sum(c * (g["level"][j] + sh * g["change"][j]) for (j, sh, c) in me["terms"])
+        ch = sum(c * g["change"][j] for (j, sh, c) in me["terms"])
+        out[oname(k)] = (math.exp(lv), math.exp(ch)) if me["log"] else (lv, ch)
+    return out
 
 
 def vname(j): return f"x{j + 1}"
@@ -281,7 +332,7 @@ def own_steady(spec):
 def own_jacobian(spec, V):
     """{(i, j, shift): d equation_i / d V_j{shift}} of  0 = -V_i + ...  at the steady state V (levels for non-log)"""
     Jc = {}
-    x = np.where(spec["logs"], np.exp(V), V)
+    x = None if V is None else np.where(spec["logs"], np.exp(V), V)
     for i, e in enumerate(spec["eqs"]):
         Jc[(i, i, 0)] = Jc.get((i, i, 0), 0.0) - 1.0
         for (j, sh, c) in e["terms"]:
@@ -332,6 +383,8 @@ def own_root_count(spec, Jc):
             unstable += 1
             continue
         r = a_ / b_
+        if spec.get("growth") and abs(r - 1.0) < 1e-9:
+            continue                                 # the unit root of the stochastic trend
         dist = min(dist, abs(r - 1.0))
         if r > 1.0:
             unstable += 1
@@ -378,8 +431,15 @@ def build_model(spec):
     m = ir.Simultaneous.from_string(src, linear=spec["linear"], flat=spec["flat"])
     if params:
         m.assign(**params)
-    with contextlib.redirect_stdout(io.StringIO()):
-        m.steady()
+    if spec.get("growth"):
+        # a unit root: the growing steady state is assigned (levels and changes) and verified, not solved for
+        m.assign(**growth_steady_assignment(spec))
+        with contextlib.redirect_stdout(io.StringIO()):
+            if m.check_steady() is False:
+                raise RuntimeError("assigned balanced-growth path rejected by check_steady")
+    else:
+        with contextlib.redirect_stdout(io.StringIO()):
+            m.steady()
     rec = Recorder()
     with rec.active():
         m.solve()
@@ -622,6 +682,29 @@ class Bundle:
                 f"{forward} [{'; '.join(raw(x) for x in exp)}] then [] else [0])")
         self.checks.append(("expansion", term, [f"expand_square_solution({forward})"]))
 
+    # ---- stage (e): the constant vector of a model that is not declared linear, from the steady-state path
+    def add_constant_check(self):
+        if self.spec["linear"]:
+            return False
+        m, sv, sy = self.m, self.d.system_vectors, self.rec.system
+        lev, chg = dict(m.get_steady_levels()), dict(m.get_steady_changes())
+        xi, xil = [], []
+        for t in sv.transition_variables:
+            nm = self.names[t.qid]
+            L, c = float(lev[nm]), chg.get(nm)
+            lg = bool(self.logly.get(t.qid))
+            c = (1.0 if lg else 0.0) if (c is None or c != c) else float(c)
+            if lg:
+                L, c = math.log(L), math.log(c)
+            xi.append(L + t.shift * c); xil.append(L + (t.shift - 1) * c)
+        if not np.all(np.isfinite(xi + xil)):
+            return False
+        nrow, ncol = sy.A.shape
+        term = (f"A.check_constant {nrow} {ncol} {self.name('yA', sy.A)} {self.name('yB', sy.B)} {raw(np.array(xi))} "
+                f"{raw(np.array(xil))} {self.name('yC', sy.C)}")
+        self.checks.append(("constant", term, ["C = -(A xi + B xi_lagged) on the steady-state path"]))
+        return True
+
     # ---- stage (c)
     def add_token_check(self):
         spec, d = self.spec, self.d
@@ -725,20 +808,26 @@ def property_residual(spec, m, sc, out, span, Jc=None, V=None, tol=2e-6) -> list
     import irispie as ir
     bad = []
     n = spec["n"]
-    V = own_steady(spec) if V is None else V
-    if V is None:
-        return bad
+    has_nl = any(e["nl"] for e in spec["eqs"])
+    if has_nl:
+        V = own_steady(spec) if V is None else V
+        if V is None:
+            return bad
     Jc = own_jacobian(spec, V) if Jc is None else Jc
     per = list(span)
     dev = sc["deviation"]
     lo, hi = _shift_ranges(spec)
     maxlead = max(hi)
 
-    def Vval(dbx, j, p):
+    def Vraw(dbx, j, p):
         v = series_value(dbx, vname(j), p)
-        if spec["logs"][j]:
-            v = math.log(v)
-        return v if dev else v - V[j]          # deviation from the steady state, in V-units
+        return math.log(v) if spec["logs"][j] else v
+
+    def Vval(dbx, j, p):
+        # models that are linear in V: the equation itself, constants included, at any (also growing) steady state;
+        # models with a product term: the deviation from the steady state the linearisation was taken at
+        v = Vraw(dbx, j, p)
+        return v if (dev or not has_nl) else v - V[j]
     for ti, p in enumerate(per):
         cont = None
         if maxlead > 0:
@@ -777,19 +866,19 @@ def property_residual(spec, m, sc, out, span, Jc=None, V=None, tol=2e-6) -> list
                 r += c * Vval(src, j, p + sh)
             for (s, c) in e["shocks"]:
                 r += c * (series_value(out, ename(s), p) + series_value(out, "ant_" + ename(s), p))
+            if not dev and not has_nl:
+                r += e["const"]
             if not (abs(r) <= tol):
                 bad.append(f"transition equation {i + 1} at period index {ti}: linearised residual {r:.3e}")
         for k, me in enumerate(spec["meas"]):
             # measurement equations are linear in V(x) and in (log) o
             o = series_value(out, oname(k), p)
             o = math.log(o) if me["log"] else o
-            rhs = sum(c * (Vval(out, j, p + sh) + (0.0 if dev else V[j])) for (j, sh, c) in me["terms"])
+            rhs = sum(c * Vraw(out, j, p + sh) for (j, sh, c) in me["terms"])
             if not dev:
                 rhs += me["const"]
             if me["wshock"] is not None:
                 rhs += series_value(out, wname(me["wshock"]), p)
-            if dev and me["log"]:
-                pass
             r = o - rhs
             if not (abs(r) <= tol * (1 + abs(o))):
                 bad.append(f"measurement equation {k + 1} at period index {ti}: residual {r:.3e}")
@@ -819,6 +908,10 @@ def level_vs_deviation(spec, m, sc, tol=1e-7) -> list[str]:
 
 def _accept(spec):
     """independent determinacy classification of a generated model: (V, Jc, nf, n_unstable, distance from the unit circle)"""
+    if spec.get("growth"):
+        Jc = own_jacobian(spec, None)
+        nf, nun, dist = own_root_count(spec, Jc)
+        return None, Jc, nf, nun, dist
     with np.errstate(all="ignore"):
         V = own_steady(spec)
     if V is None:
@@ -860,15 +953,24 @@ def accept_at_model_steady(spec, m, acc):
     return V, Jc, nf, nun, dist
 
 
-def gen_determinate(rng, max_states):
+def gen_determinate(rng, max_states, growth_share=0.4):
     for _ in range(400):
         spec = gen_spec(rng, max_states)
         acc = _accept(spec)
         if acc is None:
             continue
         V, Jc, nf, nun, dist = acc
-        if nun == nf and dist > 0.03:
-            return spec, acc
+        if not (nun == nf and dist > 0.03):
+            continue
+        if rng.random() < growth_share and not any(e["nl"] for e in spec["eqs"]):
+            g = add_growth(rng, spec, V)
+            lo, hi = _shift_ranges(g)
+            gacc = _accept(g)
+            if sum(hi[j] - lo[j] for j in range(g["n"])) <= max_states + 2 and gacc is not None \
+                    and gacc[3] == gacc[2] and gacc[4] > 0.03:
+                return g, gacc
+            continue
+        return spec, acc
     raise RuntimeError("generator: no determinate model found")
 
 
@@ -877,9 +979,9 @@ def correspondence(ctx) -> CorrResult:
     t_start = _time.time()
     rng = ctx.rng
     res = CorrResult()
-    n_models = ctx.scale(80, 2000)
+    n_models = ctx.scale(120, 2000)
     n_scen = 3
-    per_shard = ctx.scale(20, 25)
+    per_shard = ctx.scale(15, 25)
     max_states = ctx.scale(8, 10)
     dist = {"models": 0, "states": {}, "forwards": {}, "log_models": 0, "nonlinear_models": 0, "linear_flag": 0,
             "measurement": 0, "skipped": {}, "scenarios": 0, "deviation": 0, "anticipated": 0, "unanticipated": 0,
@@ -916,6 +1018,7 @@ def correspondence(ctx) -> CorrResult:
         dist["max_contract_residual"] = max(dist["max_contract_residual"], worst)
         dist["max_condition"] = max(dist["max_condition"], cond)
         b.add_solution_check()
+        dist["constant_checks"] = dist.get("constant_checks", 0) + int(b.add_constant_check())
         b.add_token_check()
         if not b.add_stability_check():
             dist["skipped"]["nan-eigenvalue"] = dist["skipped"].get("nan-eigenvalue", 0) + 1
@@ -944,6 +1047,7 @@ def correspondence(ctx) -> CorrResult:
         dist["states"][str(ns)] = dist["states"].get(str(ns), 0) + 1
         dist["forwards"][str(b.nf)] = dist["forwards"].get(str(b.nf), 0) + 1
         dist["log_models"] += int(any(spec["logs"])); dist["linear_flag"] += int(spec["linear"])
+        dist["growth_models"] = dist.get("growth_models", 0) + int(bool(spec.get("growth")))
         dist["nonlinear_models"] += int(any(e["nl"] for e in spec["eqs"])); dist["measurement"] += int(bool(spec["meas"]))
         if len(samples) < 3:
             samples.append({"source": render_source(spec)[0], "system_vector": [(t.qid, t.shift) for t in
@@ -985,7 +1089,8 @@ def correspondence(ctx) -> CorrResult:
     res.samples = samples
     res.rule = ("one generated determinate model (1-4 variables, lags/leads <= 3, log-variables, constants, measurement block, "
                 "optionally a product term) -> Simultaneous.from_string/assign/steady/solve with QZ and Schur recorded; checks per "
-                "model: 15 solution matrices, forward expansion, token vectors + dynamic identities (exact), eigenvalue "
+                "model: 15 solution matrices, the constant vector C of models not declared linear (from the steady-state path, also "
+                "a growing one: 40% of the draws are balanced-growth versions with a stochastic trend), forward expansion, token vectors + dynamic identities (exact), eigenvalue "
                 "classification, and 3 simulations (random dated unanticipated/anticipated/measurement shocks, initial "
                 "conditions, deviation in {True,False}) compared cell by cell with the exact-rational model; "
                 "non-trivial = every scenario and every model-level check; distinct = distinct generated inputs")
@@ -1003,7 +1108,8 @@ def _confirm(b: Bundle, lab: str, info, failing: list[int]):
     if lab == "simulation":
         sc = info["scenario"]
         which = [info["labels"][i] for i in failing if i < len(info["labels"])]
-        return Disagreement("simulation cells", {"spec": spec, "scenario": sc, "source": src},
+        seq = [q[0] for q in getattr(b, "scen", [])]
+        return Disagreement("simulation cells", {"spec": spec, "scenario": sc, "scenarios": seq, "source": src},
                             "cells differ from the rational model: " + ", ".join(which[:6]), None)
     names = info if isinstance(info, list) else []
     which = [names[i] for i in failing if i < len(names)]
@@ -1066,13 +1172,15 @@ def falsify(ctx, hints):
     def add(key, what, inp, obs=None, req=None):
         if all(f.key != key for f in fails):
             fails.append(Failure(key, what, inp, obs, req,
-                                 "harness.C01: build_model(spec); run_scenario(m, spec, scenario); property_residual(...)"))
+                                 "harness.C01: m, _ = build_model(spec); for sc in scenarios (in order, same m): run_scenario(m, spec, sc); "
+                                 "property_residual(spec, m, sc, out, span); level_vs_deviation(spec, m, sc)"))
     # 1. inputs on which the correspondence disagreed come first
     todo = []
     for d in hints.get("disagreements", []):
         inp = d.get("input") or {}
         if isinstance(inp, dict) and "spec" in inp:
-            todo.append((inp["spec"], inp.get("scenario")))
+            seq = inp.get("scenarios") or ([inp["scenario"]] if inp.get("scenario") else None)
+            todo.append((inp["spec"], seq))
     n = ctx.scale(24, 500)
     for _ in range(n):
         spec, _acc = gen_determinate(rng, ctx.scale(8, 12))
@@ -1111,27 +1219,40 @@ def falsify(ctx, hints):
         if nf_rep != nf:
             add("verdict:num-forwards", "number of forward-looking variables differs from the model source",
                 {"spec": spec, "source": src}, nf_rep, nf)
-        scen = [sc0] if sc0 else [gen_scenario(rng, spec, nper=rng.randint(3, 6))]
-        for sc in scen:
+        if sc0:
+            scen = list(sc0)
+        else:
+            # successive simulations on the SAME solved model object, the anticipation horizon growing from run to run
+            # (the forward expansion is cached on the solution and extended on demand)
+            nper = rng.randint(4, 7)
+            sc1 = gen_scenario(rng, spec, nper=nper)
+            sc1["v"] = [q for q in sc1["v"] if q[1] <= 1] or [[rng.randrange(spec["nshocks"]), 1, _r(rng, 0.3, 1.0, 3)]]
+            sc2 = gen_scenario(rng, spec, nper=nper)
+            if not any(q[1] == nper - 1 for q in sc2["v"]):
+                sc2["v"].append([rng.randrange(spec["nshocks"]), nper - 1, _r(rng, 0.3, 1.0, 3)])
+            scen = [sc1, sc2]
+        for k_run, sc in enumerate(scen):
+            where = {"spec": spec, "scenario": sc, "scenarios": scen, "failing_run": k_run, "source": src}
             try:
                 db, out, span = run_scenario(m, spec, sc)
             except Exception as e:
-                add("simulate:raises", f"simulate raises {type(e).__name__}: {e}"[:200], {"spec": spec, "scenario": sc, "source": src})
+                add("simulate:raises", f"simulate raises {type(e).__name__}: {e}"[:200], where)
                 continue
             vals = [series_value(out, vname(j), p) for j in range(spec["n"]) for p in span]
             if not all(np.isfinite(vals)):
-                add("path:non-finite", "simulated path contains non-finite values", {"spec": spec, "scenario": sc, "source": src})
+                add("path:non-finite", "simulated path contains non-finite values", where)
                 continue
             bad = property_residual(spec, m, sc, out, span, Jc, V)
             info["equation_residual_checks"] += len(list(span)) * (spec["n"] + len(spec["meas"]))
             if bad:
                 add("equations:residual", "a linearised model equation does not hold on the simulated path (leads from the "
-                    "model-consistent continuation)", {"spec": spec, "scenario": sc, "source": src}, bad[:5], "|residual| <= 2e-6")
+                    f"model-consistent continuation); simulation number {k_run + 1} on the same solved model object",
+                    where, bad[:5], "|residual| <= 2e-6")
             bad = level_vs_deviation(spec, m, sc)
             info["level_vs_deviation_checks"] += 1
             if bad:
                 add("level-vs-deviation", "level simulation differs from steady state plus deviation simulation",
-                    {"spec": spec, "scenario": sc, "source": src}, bad[:5], "equal within 1e-7")
+                    where, bad[:5], "equal within 1e-7")
             # non-explosive: a long continuation without shocks returns to the steady state
         if len(fails) >= 6:
             break
@@ -1186,7 +1307,7 @@ def replay(ctx, failure: dict):
     spec = inp.get("spec")
     if not spec:
         return None
-    hints = {"disagreements": [{"input": {"spec": spec, "scenario": inp.get("scenario")}}]}
+    hints = {"disagreements": [{"input": {"spec": spec, "scenario": inp.get("scenario"), "scenarios": inp.get("scenarios")}}]}
 
     class _C:      # a context that generates nothing new
         rng = ctx.rng
